@@ -2,7 +2,7 @@
 # confirm_seed.sh Cxx L  -- independent confirmation of a seeded change delivered in /tmp/seedout/Cxx
 # (patchL.diff, demoL.sh) using the scratch worktree /tmp/seedwt/Cxx: the patched tree builds, the whole
 # ctest suite is green, the demonstration fails; the clean tree makes it pass.  Prints a log; exit 0 iff all hold.
-p=$1; L=$2; wt=/tmp/seedwt/$p; so=/tmp/seedout/$p
+p=$1; L=$2; wt=/tmp/seedwt/$p; so=${SEEDOUT:-/tmp/seedout}/$p
 cd $wt || exit 3
 git checkout -q -- . ; git status --short | grep -v '^?? _build' && { echo "worktree not clean"; exit 3; }
 bld() { cmake -G Ninja -B _build -S . -DWITH_GNUTLS=ON -DWITH_TESTS=ON >/dev/null 2>&1 && cmake --build _build 2>&1 | grep -iE "warning|error" ; cmake --build _build >/dev/null 2>&1; }
